@@ -189,6 +189,7 @@ func c13exec(c *h.Ctx, cs *h.Case) {
 	var roster *onet.Roster
 	var objs []*c13obj
 	var reuseTok *onet.Token
+	regProbed := false
 	var reuseFields [6]string
 	full := strings.HasPrefix(cs.Class, "witness") || strings.HasPrefix(cs.Class, "full")
 	reg := newC13reg()
@@ -270,6 +271,13 @@ func c13exec(c *h.Ctx, cs *h.Case) {
 		}
 		if d := c13rosterAccessors(roster, members, keys); d != "" {
 			cs.Fail("roster-accessor", d)
+		}
+		// the accessors are queries: afterwards the roster still is the list its id stands for (an aggregate that is
+		// summed up inside a member's key object changes key material the id covers)
+		if g, err := roster.GetID(); err != nil || g.String() != id {
+			cs.Fail("roster-id-changed-by-accessor", "after Publics / Get / ServicePublics / ServiceAggregate the roster's id "+id+" no longer is GetID() of its list — "+how)
+		} else if again := c13rosterAccessors(roster, members, keys); again != "" {
+			cs.Fail("roster-id-changed-by-accessor", "a second round of the accessors sees other keys than the first: "+again)
 		}
 		o := &c13obj{kind: "roster", id: id}
 		var flat []string
@@ -658,6 +666,22 @@ func c13exec(c *h.Ctx, cs *h.Case) {
 				ServiceID: onet.ServiceID(u[3]), RoundID: onet.RoundID(u[4]), TreeNodeID: onet.TreeNodeID(u[5])}
 			fresh := tok.ID().String()
 			id := fresh
+			// the id (and the text form of a protocol id) does not depend on what is registered: a token whose
+			// protocol is registered globally between two looks at its id (first token of a case)
+			if !regProbed {
+				regProbed = true
+				name := "c13-" + tk[4] + "-" + tk[2][:8]
+				pid := onet.ProtocolNameToID(name)
+				pt := &onet.Token{RosterID: tok.RosterID, TreeID: tok.TreeID, ProtoID: pid, ServiceID: tok.ServiceID, RoundID: tok.RoundID, TreeNodeID: tok.TreeNodeID}
+				id1, s1 := pt.ID().String(), pid.String()
+				_, _ = onet.GlobalProtocolRegister(name, func(*onet.TreeNodeInstance) (onet.ProtocolInstance, error) { return nil, nil })
+				id2, s2 := pt.ID().String(), pid.String()
+				if s1 != uuid.UUID(pid).String() || s2 != s1 {
+					cs.Fail("proto-id-string-depends-on-registration", "ProtocolID.String() of "+uuid.UUID(pid).String()+" is "+s1+" before and "+s2+" after the protocol was registered globally")
+				} else if id1 != id2 || pt.Clone().ID().String() != id1 {
+					cs.Fail("token-id-depends-on-registration", "the id of a token changed when its protocol was registered globally: "+id1+" / "+id2)
+				}
+			}
 			if tok.Clone().ID().String() != id || tok.ID().String() != id {
 				nondet("token", "a token's id changes between calls / for a clone")
 			}
